@@ -575,6 +575,12 @@ def rename(table: Table, name_map: dict[str | Col | ColName, str]) -> Pipeable:
             )
 
     name_map = {(preprocess_arg(k, table) if isinstance(k, ColName | Col) else k): v for k, v in name_map.items()}
+    if (hidden := next((k for k in name_map if isinstance(k, Col) and k._uuid not in table._cache.uuid_to_name), None)) is not None:
+        raise ColumnNotFoundError(
+            f"cannot rename hidden column `{hidden.ast_repr()}`\n"
+            "hint: A column becomes hidden if you deselected it before or "
+            "overwrite it in `mutate` or `summarize`."
+        )
     name_map = {(table._cache.uuid_to_name[k._uuid] if isinstance(k, Col) else k): v for k, v in name_map.items()}
 
     if d := set(name_map).difference(table._cache.name_to_uuid):
